@@ -15,6 +15,7 @@ import (
 	"encoding/json"
 	"fmt"
 	"math"
+	"os"
 	"path/filepath"
 	"sort"
 	"strings"
@@ -361,13 +362,104 @@ func (w *world) read(s, f int, min, max int64, asc bool, who string) bool {
 	simrt.MuUnlock(&w.mu)
 	if class != "" {
 		sig := class
+		if os.Getenv("DSIM_DEBUG") != "" {
+			detail += " || " + w.where(s, f)
+		}
 		if class == "stale" || class == "order" {
 			sig += w.cycleSuffix(s, f, min, max, asc, class, detail)
+		}
+		if class == "resurrected" {
+			sig += w.unindexedSuffix(s, detail)
 		}
 		r.Violate("C17:"+class, sig, "%s read series %d (%q %v) field %s [%d..%d] asc=%v at [%d,%d] returned %d points: %s", who, s, stor.SeriesMeas(s), stor.SeriesTags(s), stor.FieldName(f), min, max, asc, inv, ret, len(got), detail)
 		return false
 	}
 	return true
+}
+
+// where describes, per shard, whether the index knows the series and where the engine holds the key (triage aid).
+func (w *world) where(s, f int) string {
+	out := ""
+	for id := uint64(1); id <= nShards; id++ {
+		sh := w.st.Shard(id)
+		if sh == nil {
+			continue
+		}
+		idx, err1 := sh.Index()
+		sf, err2 := sh.SeriesFile()
+		if err1 != nil || err2 != nil {
+			continue
+		}
+		sid := sf.SeriesID([]byte(stor.SeriesMeas(s)), stor.SeriesTags(s), nil)
+		out += fmt.Sprintf("shard%d: series id %d deleted-in-series-file=%v in-index=%v", id, sid, sf.IsDeleted(sid), idx.SeriesIDSet().Contains(sid))
+		if itr, err := idx.MeasurementSeriesIDIterator([]byte(stor.SeriesMeas(s))); err == nil && itr != nil {
+			var ids []uint64
+			for {
+				e, err := itr.Next()
+				if err != nil || e.SeriesID == 0 {
+					break
+				}
+				ids = append(ids, e.SeriesID)
+			}
+			itr.Close()
+			out += fmt.Sprintf(" measurement-series-ids=%v", ids)
+		}
+		if e, err := sh.Engine(); err == nil {
+			if te, ok := e.(*tsm1.Engine); ok {
+				out += fmt.Sprintf(" cache-values=%d tsm-files-with-key=%d", len(te.Cache.Values(stor.FieldKey(s, f))), len(stor.LocsOf(te.FileStore.Files(), stor.FieldKey(s, f), math.MinInt64, true)))
+			}
+		}
+		out += "; "
+	}
+	return out
+}
+
+// unindexedSuffix names the layout in which a delete cannot reach data: the point that came back lies in a shard
+// whose index does not list the series under its measurement (deletes walk the index), although the engine
+// holds the data.  This is what a measurement drop racing with the first write of a series leaves behind.
+func (w *world) unindexedSuffix(s int, detail string) string {
+	var ts int64
+	if n, _ := fmt.Sscanf(detail, "ts=%d ", &ts); n != 1 {
+		return ""
+	}
+	if listed, ok := w.indexLists(s, shardOfTS(ts)); ok && !listed {
+		return ":series-not-in-index"
+	}
+	return ""
+}
+
+// indexLists: does the index of the shard list the series under its measurement?
+func (w *world) indexLists(s, shard int) (listed, ok bool) {
+	sh := w.st.Shard(uint64(shard))
+	if shard == 0 || sh == nil {
+		return false, false
+	}
+	idx, err1 := sh.Index()
+	sf, err2 := sh.SeriesFile()
+	if err1 != nil || err2 != nil {
+		return false, false
+	}
+	sid := sf.SeriesID([]byte(stor.SeriesMeas(s)), stor.SeriesTags(s), nil)
+	itr, err := idx.MeasurementSeriesIDIterator([]byte(stor.SeriesMeas(s)))
+	if err != nil {
+		return false, false
+	}
+	if itr == nil {
+		return false, true
+	}
+	defer itr.Close()
+	for {
+		e, err := itr.Next()
+		if err != nil {
+			return false, false
+		}
+		if e.SeriesID == 0 {
+			return false, true
+		}
+		if e.SeriesID == sid && sid != 0 {
+			return true, true
+		}
+	}
 }
 
 // cycleSuffix identifies known finding C06-F1: in the FileStore of the shard the offending point belongs to, the
